@@ -18,6 +18,18 @@ struct RunPlan
     // C20: the entries of the external variables are set to NaN before the first call and again after the arrays have
     // been reported following each method, so that a method that reads one without calling the callback first shows.
     bool poisonExternals = false;
+    // Stale-order protocol (ODE / DAE models only; default off). At the second evaluation point the driver calls
+    // computeRates(point 2) and reports rates / variables as usual, then calls computeRates again at the FIRST point
+    // (point-1 voi, states, NLA pre-load, external values - a complete, consistent point, so nothing is evaluated
+    // outside the safe domain), and only then computeVariables(point 2) with the point-2 states, the point-2 rates
+    // saved from the first call and the point-2 NLA pre-load. `variables` therefore holds point-1 intermediates when
+    // computeVariables starts, as it does under an ODE solver that evaluates rates at trial points: whatever is state /
+    // rate based or external has to be recomputed by computeVariables for the reported arrays to be right.
+    bool staleOrder = false;
+    // Stale order only: variables indices (a subset of those in preload[1]) that computeVariables has to re-solve. They
+    // are pre-loaded with a sentinel instead of the solution before computeVariables(point 2); the solver stub replaces
+    // a sentinel it is handed by the solution, so an NLA system that is not solved again keeps the sentinel.
+    std::vector<size_t> staleResolve;
 };
 
 struct InfoEntry
